@@ -89,11 +89,12 @@ type fixture struct {
 	texts    []string
 	fxName   string
 	zeroPS   *cedar.PolicySet // a zero-value set that nobody has added to yet
+	plist    cedar.PolicyList // a list that is not in document order (collected, reversed)
 }
 
 func (f *fixture) roots() ([]any, []string) {
-	return []any{f.ps, f.pols, f.ents, f.reqs, f.breqs, f.vals, f.set, f.rec, f.schema, f.resolved, f.val, f.spols, f.sents, f.zeroPS},
-		[]string{"policy set", "policies", "entity map", "requests", "batch requests", "values", "set value", "record value", "schema", "resolved schema", "validator", "schema fixture policies", "schema fixture entities", "zero-value policy set"}
+	return []any{f.ps, f.pols, f.ents, f.reqs, f.breqs, f.vals, f.set, f.rec, f.schema, f.resolved, f.val, f.spols, f.sents, f.zeroPS, f.plist},
+		[]string{"policy set", "policies", "entity map", "requests", "batch requests", "values", "set value", "record value", "schema", "resolved schema", "validator", "schema fixture policies", "schema fixture entities", "zero-value policy set", "policy list (not in document order)"}
 }
 
 func genFixture(r *core.Run) *fixture {
@@ -205,6 +206,14 @@ func genFixture(r *core.Run) *fixture {
 			}
 		}
 	}
+	// a policy list in an order other than its document order: a multi-statement document,
+	// reversed and with the fixture's policies in front
+	if list, err := cedar.NewPolicyListFromBytes("list.cedar", []byte(strings.Join(f.texts, "\n"))); err == nil {
+		for i := len(list) - 1; i >= 0; i-- {
+			f.plist = append(f.plist, list[i])
+		}
+	}
+	f.plist = append(f.plist, f.spols...)
 	return f
 }
 
@@ -294,6 +303,9 @@ func (f *fixture) operations() []operation {
 			}
 		}
 		return strings.Join(copies, "|")
+	})
+	add("PolicyList.MarshalCedar (list not in document order)", func() string {
+		return string(f.plist.MarshalCedar())
 	})
 	add("Encoder.Encode (all)", func() string {
 		var buf bytes.Buffer
